@@ -367,6 +367,11 @@ impl RoundTrips {
             cases.push(("bytes(string(bytes(x))) == bytes(x)", "bytes-string-bytes", V::s(s)));
             cases.push(("size(bytes(x)) == size(x)", "bytes-size", V::s(s)));
         }
+        // int(t) is the second that holds t: before the epoch too (floor, not truncation)
+        for ns in [500_000_000i128, -500_000_000, -250_000_000, -1_750_000_000, 1_500_000_000, -1, 1, -86_400 * NS - 1_000_000, -NS, NS, 0, 1_700_000_000 * NS + 999_999_999, -62_135_596_800 * NS + 1] {
+            cases.push(("timestamp(int(x)) <= x && x - timestamp(int(x)) < duration('1s')", "int-of-timestamp-is-the-second-that-holds-it", V::Ts(ns)));
+            cases.push(("timestamp(int(x)).getSeconds() == x.getSeconds()", "int-of-timestamp-agrees-with-getSeconds", V::Ts(ns)));
+        }
         RoundTrips { cases }
     }
     pub fn size(&self) -> u64 {
@@ -676,7 +681,7 @@ pub fn replay_families(t: Tier) -> Vec<Family<'static>> {
 
 pub fn run(t: Tier) -> i32 {
     let mut rep = Report::new(ID, t, "exploration");
-    rep.rule = "conversions: every value of the numeric boundary grid, a string grid (decimal and exponent renderings of every grid number, signs, blanks, separators, non-ASCII digits, out-of-range digit strings, bool literals, timestamps, durations), bytes (valid and invalid UTF-8), and one value of every other type x the 10 constructors, bound and literal, against the reference conversion (Unspecified where the property does not fix the answer) plus type(T(x)) == T; roundtrips: int(string(i))==i, uint(string(u))==u, double(string(d))==d over the dense grids and all exponents, string(bytes(s))==s (incl. texts with a byte order mark at the start, inside, twice), evaluated inside CEL; instant-texts: 7 instants x 8 zone offsets spelled by chrono as RFC 3339 (upper and lower case t, Z form) and RFC 2822: timestamp(text) is that instant, bound, literal and compared with timestamp(seconds); string-injective: string() over grids of durations and timestamps down to one nanosecond, ints, uints and doubles never maps two different values to the same text; fstrings: all sequences of 1..N segments over 37 segment kinds (literal text, doubled braces, quotes, embedded variables and embedded compile-time constants of every type)
+    rep.rule = "conversions: every value of the numeric boundary grid, a string grid (decimal and exponent renderings of every grid number, signs, blanks, separators, non-ASCII digits, out-of-range digit strings, bool literals, timestamps, durations), bytes (valid and invalid UTF-8), and one value of every other type x the 10 constructors, bound and literal, against the reference conversion (Unspecified where the property does not fix the answer) plus type(T(x)) == T; roundtrips: int(string(i))==i, uint(string(u))==u, double(string(d))==d over the dense grids and all exponents, string(bytes(s))==s (incl. texts with a byte order mark at the start, inside, twice), evaluated inside CEL; int(timestamp) is the second that holds the instant, also before the epoch (two laws over 13 instants with sub-second parts); instant-texts: 7 instants x 8 zone offsets spelled by chrono as RFC 3339 (upper and lower case t, Z form) and RFC 2822: timestamp(text) is that instant, bound, literal and compared with timestamp(seconds); string-injective: string() over grids of durations and timestamps down to one nanosecond, ints, uints and doubles never maps two different values to the same text; fstrings: all sequences of 1..N segments over 37 segment kinds (literal text, doubled braces, quotes, embedded variables and embedded compile-time constants of every type)
  x both quotes compared with the concatenation of literal parts and string(e) evaluated by the implementation. Non-trivial = outcome fixed by the property; distinct by index".to_string();
     for f in replay_families(t) {
         rep.run_family(f);
